@@ -129,6 +129,26 @@ def drive_case(case):
         return [cps(u) for u in subjects if c.fullmatch(u)]
 
     o["re_matches"] = _res(rx)
+    # the regex transformation of processing pipelines (three methods)
+    from sigma.processing.transformations import RegexTransformation
+    from sigma.types import SigmaRegularExpression, SigmaRegularExpressionFlag
+
+    alpha_ci = [chr(c) for c in case["subjci"]]
+    subjects_ci = ["".join(t) for n in range(4) for t in itertools.product(alpha_ci, repeat=n)]
+
+    def rxt(method, subs):
+        def go():
+            r = RegexTransformation(method=method).apply_string_value(None, SigmaString(src))
+            if not isinstance(r, SigmaRegularExpression):
+                return [[-7]]  # not converted (documented for the empty string)
+            flags = re.DOTALL | (re.IGNORECASE if SigmaRegularExpressionFlag.IGNORECASE in r.flags else 0)
+            c = re.compile(str(r.regexp), flags)
+            return [cps(u) for u in subs if c.fullmatch(u)]
+
+        return go
+
+    o["subjci"] = case["subjci"]
+    o["rxt"] = [_res(rxt("plain", subjects)), _res(rxt("ignore_case_flag", subjects_ci)), _res(rxt("ignore_case_brackets", subjects_ci))]
     o["slices"] = [
         _res(lambda: _parts(s[1:])),
         _res(lambda: _parts(s[:-1])),
